@@ -1,4 +1,6 @@
 import Driver.Util
+import MmtkModel.Model.SpaceDescriptor
+import Driver.Layout.Desc
 /-! package `Layout` (see CONVENTIONS.md): register components in `step`.
 `cfg` lines this package cares about may be matched here too (they must answer "ok");
 every package sees every `cfg` line. -/
@@ -7,16 +9,21 @@ open Driver
 
 structure St where
   debug : Bool := true
+  /-- the process-global `VMLayout` (`cfg layout 32|64`) -/
+  layout : Mmtk.Layout.VMLayout := Mmtk.Layout.layout64
 
 /-- `none` = not a component of this package. -/
 def step (st : St) (toks : List String) : Option (St × String) :=
   match toks with
+  | "desc" :: args => some (st, Desc.run st.layout st.debug args)
   | _ => none
 
 /-- `cfg` lines are broadcast to every package. -/
 def cfg (st : St) (toks : List String) : St :=
   match toks with
   | ["debug", v] => { st with debug := v == "1" }
+  | ["layout", "32"] => { st with layout := Mmtk.Layout.layout32 }
+  | ["layout", "64"] => { st with layout := Mmtk.Layout.layout64 }
   | _ => st
 
 end Driver.Layout
